@@ -38,14 +38,17 @@ def failing_call(kspec):
     return False
 
 
-def sig_record(k, pre, seqs, types, accs, as_single=False, after_failure=False):
+def sig_record(k, pre, seqs, types, accs, as_single=False, after_failure=False, prev=None):
     """Run calc_signature for every (type, accumulator) variant; identical outputs are stored once."""
     outs = {}
     kspec = KmerSpec(k, bytes(pre))
     if after_failure:
         failing_call(kspec)
     for t in types:
-        conv = [TYPES[t](s) for s in seqs]
+        if t == 'reused-buffer':
+            conv = list(seqs)
+        else:
+            conv = [TYPES[t](s) for s in seqs]
         if any(c is None for c in conv):
             continue
         for a in accs:
@@ -53,7 +56,22 @@ def sig_record(k, pre, seqs, types, accs, as_single=False, after_failure=False):
                 continue
             try:
                 acc = ACCS[a](k) if ACCS[a] else None
-                arg = conv[0] if (as_single and len(conv) == 1) else iter(conv) if a == 'set' else conv
+                if t == 'reused-buffer':
+                    # ONE mutable buffer object: it first held (and was searched with) other contents - `prev` -, then it is refilled in place
+                    # for every sequence, as a reader that recycles its buffer does
+                    buf = bytearray()
+                    for old in (prev or []):
+                        buf[:] = old
+                        list(find_kmers(kspec, buf))
+                        calc_signature(kspec, buf)
+
+                    def refill(buf=buf):
+                        for s_ in conv:
+                            buf[:] = s_
+                            yield buf
+                    arg = refill()
+                else:
+                    arg = conv[0] if (as_single and len(conv) == 1) else iter(conv) if a == 'set' else conv
                 res = calc_signature(kspec, arg, accumulator=acc)
             except Exception as e:
                 res = e
@@ -87,7 +105,8 @@ class Fam(core.Family):
         if inp['op'] == 'find':
             return find_record(inp['k'], bytes(inp['pre']), bytes(inp['seqs'][0]), inp.get('typ', 'bytes'))
         return sig_record(inp['k'], bytes(inp['pre']), [bytes(s) for s in inp['seqs']], inp['types'], inp['accs'],
-                          as_single=inp.get('single', False), after_failure=inp.get('after_failure', False))
+                          as_single=inp.get('single', False), after_failure=inp.get('after_failure', False),
+                          prev=[bytes(p) for p in inp.get('prev', [])])
 
     def nontrivial(self, inp, rec):
         # non-trivial: the expected signature is non-empty (some output has >= 1 k-mer)
@@ -182,7 +201,8 @@ class Random(Fam):
         self.rule = (f'{n} seeded random inputs: 1-4 sequences of length 0..400 (some up to 5000) over ACGT / ACGTacgtN / '
                      f'arbitrary bytes incl. bytes one bit away from a nucleotide, planted forward and reverse prefix '
                      f'occurrences (flush with either end, too close to an end), k in 1..32, prefix length 1..7; '
-                     f'array accumulator for k<=10 (k=11,12 sampled), set accumulator always')
+                     f'array accumulator for k<=10 (k=11,12 sampled), set accumulator always; every 4th input also through ONE bytearray object that was searched '
+                     f'with other contents before and is refilled in place for each sequence')
         rng = ctx.rng
         alphabets = [b'ACGT', b'ACGTacgtNn', bytes(range(256)), b'ACGT@`!Uu\xc1\xe1ac', b'AT', b'ACGTN']
         for i in range(n):
@@ -208,6 +228,11 @@ class Random(Fam):
                 accs.append('array')
             yield dict(op='sig', k=k, pre=list(pre), seqs=seqs, types=ALLT, accs=(['default'] + accs) if i % 5 == 0 else accs, single=(i % 3 == 0),
                        after_failure=(i % 5 == 0))
+            if i % 4 == 1:
+                # the same mutable buffer object searched again after its contents changed in place (earlier contents: lower-case variants,
+                # other sequences of the same and of other lengths)
+                prev = [list(bytes(seqs[0]).lower()), list(planted(rng, len(seqs[0]), k, pre, b'ACGTacgt', 0.05)), list(planted(rng, rng.randint(0, 60), k, pre, alpha, 0.05))]
+                yield dict(op='sig', k=k, pre=list(pre), seqs=seqs, types=['reused-buffer'], accs=['set', 'default'], single=False, prev=prev)
             if i % 4 == 0:
                 yield dict(op='find', k=k, pre=list(pre), seqs=[seqs[0]], typ=rng.choice(['bytes', 'bytearray', 'Seq']))
 
